@@ -181,6 +181,20 @@ def classify_source(f, e, facts, depth=0):
             src = strip_casts(base[2][0])
             return classify_slice(f, src, facts, depth + 1)
         return classify_slice(f, base, facts, depth + 1)
+    if e[0] == "var" and str(f.locals[e[1]]) == "u8":
+        # a byte chosen in several arms (`let sign = if negative { b'-' } else { b'+' }`): ASCII if every
+        # assignment is
+        kinds = []
+        for _bb, _j, rv, pr in f.defs().get(e[1], []):
+            if pr:
+                return ("unknown", show(e))
+            if rv[0] == "call":
+                kinds.append(classify_source(f, ("call", callee_name(rv[1]), ()), facts, depth + 1))
+            else:
+                kinds.append(classify_source(f, rvalue_expr(f, rv, 0), facts, depth + 1))
+        if kinds and all(k[0] != "unknown" for k in kinds):
+            return ("const" if all(k[0] == "const" for k in kinds) else kinds[0][0], [k[1] for k in kinds])
+        return ("unknown", show(e))
     if e[0] == "arg":
         ty = f.locals[e[1]]
         if ty == "u8":
